@@ -28,11 +28,12 @@ K_SEG_LOWQP = "segmentation-low-qp-recon-decode-mismatch"
 K_CRA_LOWPRESET = "cra-low-preset-crash"
 K_FG_LOWLP = "film-grain-low-lp-recon-decode-mismatch"
 K_FLAKY_HANG = "intermittent-encoder-hang"
+K_LOWLP_IP = "low-lp-short-intra-period-hang"
 SEG_LOWQP_MAX = 12      # observed: qp <= 9 mismatches, qp >= 11 agrees (64x64, two contents); 12 leaves a margin
 # family -> the kind of failure that is recorded for it ("mismatch": decoded picture != encoder reconstruction, "crash")
 FAMILY_KIND = {K_OVERLAY_MISMATCH: ("mismatch",), K_OVERLAY_FLAT: ("crash",), K_SUPERRES: ("mismatch",), K_SUPERRES_TPL: ("crash",),
                K_PIPE16: ("mismatch",), K_RC_IP1: ("hang",), K_SEG_LOWQP: ("mismatch",), K_CRA_LOWPRESET: ("crash", "hang"),
-               K_FG_LOWLP: ("mismatch",)}
+               K_FG_LOWLP: ("mismatch",), K_LOWLP_IP: ("hang",)}
 
 
 # ----------------------------------------------------------------------------- matrix
@@ -59,6 +60,8 @@ def known_family(a):
         return K_CRA_LOWPRESET
     if int(a.get("cfg.film_grain_denoise_strength", 0)) > 0 and 1 <= int(a.get("cfg.logical_processors", 4)) <= 3:
         return K_FG_LOWLP
+    if 1 <= int(a.get("cfg.logical_processors", 4)) <= 3 and int(a.get("cfg.intra_period_length", -2)) >= 1:
+        return K_LOWLP_IP
     if (int(a.get("cfg.enable_adaptive_quantization", 2)) == 1 and int(a.get("cfg.rate_control_mode", 0)) == 0
             and int(a.get("cfg.qp", 50)) <= SEG_LOWQP_MAX):
         return K_SEG_LOWQP
@@ -145,6 +148,8 @@ def known_cases():
           hierarchical_levels=3, intra_period_length=4, intra_refresh_type=1),
         k("KNOWN FINDING case: film grain with logical_processors <= 3", K_FG_LOWLP, 70, 86, 20, content=2, seed=48026, enc_mode=5,
           hierarchical_levels=1, film_grain_denoise_strength=40, qp=50, logical_processors=1),
+        k("KNOWN FINDING case: logical_processors 2 with intra period 3 (short watchdog: the encoder never finishes)", K_LOWLP_IP, 160, 96, 14,
+          content=5, seed=1126, enc_mode=8, hierarchical_levels=2, intra_period_length=3, intra_refresh_type=2, logical_processors=2),
         k("KNOWN FINDING case: 8-bit input through the 16-bit encoder pipeline", K_PIPE16, 136, 72, 1, enc_mode=8, hierarchical_levels=0,
           is_16bit_pipeline=1),
         k("KNOWN FINDING case (C08): superres, size not a multiple of 8 (decoder 8-bit and 16-bit pipelines disagree)", K_SUPERRES, 130, 98, 2,
@@ -227,8 +232,8 @@ def random_cases(rng, count, tier):
             a["cfg.logical_processors"] = rng.choice([1, 2, 3, 8])
         if known_family(a) == K_CRA_LOWPRESET:
             a["cfg.intra_refresh_type"] = 2          # CRA refresh at presets <= 5 is a recorded family (crash / hang)
-        if known_family(a) == K_FG_LOWLP:
-            del a["cfg.logical_processors"]          # film grain with logical_processors <= 3 is a recorded family
+        if known_family(a) in (K_FG_LOWLP, K_LOWLP_IP):
+            del a["cfg.logical_processors"]          # film grain / a set intra period with logical_processors <= 3 are recorded families
         if int(a.get("cfg.enable_adaptive_quantization", 2)) == 1:
             # segmentation with a low quantizer is a recorded family: keep CQP qp >= 20, and no rate control (it may choose any quantizer)
             if int(a.get("cfg.rate_control_mode", 0)) != 0:
@@ -255,7 +260,7 @@ def matrix(tier, seed, n_random=None):
         # final_nb=1: non-blocking final drain; the documented blocking final svt_av1_enc_get_packet can deadlock against the recon
         # pool when recon_enabled=1 (recorded under C27 / C03 F19, timing dependent) - not this property's subject
         c["args"].update(hex=1, recon=1, decode=1, dec_threads=1, dec16=0, watchdog=WATCHDOG, final_nb=1)
-        if c.get("known") == K_RC_IP1:
+        if c.get("known") in (K_RC_IP1, K_LOWLP_IP):
             c["args"]["watchdog"] = 90        # this input is recorded as never finishing (typical time of a finishing 64x64x8 preset-8 encode: < 2 s)
     return cs
 
